@@ -137,6 +137,7 @@ def assert_batch(form, w, sg, batch, values):
             with m.Case(i + 1):
                 m.d.sync += Assert(never, make_format(spec, operand))
     msgs = {}
+    spurious = []
 
     def body(ctx):
         for v in values:
@@ -148,7 +149,11 @@ def assert_batch(form, w, sg, batch, values):
                     msgs[(i, v)] = None
                 except AssertionError as e:
                     msgs[(i, v)] = str(e)
-                ctx.set(cd.clk, 0)
+                try:
+                    ctx.set(cd.clk, 0)
+                except AssertionError as e:
+                    msgs[(i, v)] = None        # raised (again) on the inactive edge
+                    spurious.append((i, v))
             ctx.set(sel, 0)
     text, exc = _sim_body(m, body)
     if text and exc is None:
@@ -263,6 +268,18 @@ def w_format(task):
     return out
 
 
+def _probe_values(runner, form, w, sg, batch, vals):
+    """a whole batch raised: find the values (at most 24 tried) with which it raises, suspect every specification"""
+    bad = []
+    for v in vals[:24]:
+        _r, exc = runner(form, w, sg, batch, [v])
+        if exc is not None:
+            bad.append(v)
+    if not bad:
+        bad = vals[:1]
+    return [(spec, v) for v in bad[:3] for spec in batch]
+
+
 def _format_batch(out, form, w, sg, batch, values, avalues):
     ow, osg = R.form_shape(form, w, sg)
     shp = _shape_name(w, sg)
@@ -279,8 +296,8 @@ def _format_batch(out, form, w, sg, batch, values, avalues):
     suspects = []          # (spec, v)
     outs, exc = print_batch(form, w, sg, batch, vals)
     if exc is not None:
-        suspects = [(spec, v) for spec in batch for v in vals[:1]]
         _add(out, "batches_with_exception")
+        suspects = _probe_values(print_batch, form, w, sg, batch, vals)
     else:
         for v, (text, tail) in zip(vals, outs):
             val = R.form_value(form, v, w, sg)
@@ -303,8 +320,8 @@ def _format_batch(out, form, w, sg, batch, values, avalues):
     if avals:
         msgs, exc = assert_batch(form, w, sg, batch, avals)
         if exc is not None:
-            suspects += [(spec, avals[0]) for spec in batch]
             _add(out, "batches_with_exception")
+            suspects += _probe_values(assert_batch, form, w, sg, batch, avals)
         else:
             prefixes = set()
             for (i, v), msg in msgs.items():
@@ -749,10 +766,10 @@ def _interleave(rep):
     rep.violations[:] = out
 
 
-TASK_TIMEOUT = {"quick": 150, "thorough": 900}
+TASK_TIMEOUT = {"quick": 90, "thorough": 600}
 
 
-class _TaskTimeout(Exception):
+class _TaskTimeout(BaseException):
     pass
 
 
@@ -778,6 +795,15 @@ def _dispatch_timed(t):
     signal.alarm(TASK_TIMEOUT[tier])
     try:
         out = _dispatch(t)
+    except Exception as e:
+        import traceback
+        out = _new()
+        del out["_sigs"]
+        _add(out, "tasks_crashed")
+        tb = traceback.format_exc().strip().splitlines()
+        out["violations"].append({"sig": f"crash:{_task_name(t)}:{type(e).__name__}", "what": f"task {_task_name(t)}: unexpected "
+                                  f"{type(e).__name__}: {e} ({' / '.join(x.strip() for x in tb[-4:-1])})",
+                                  "payload": {"kind": "task", "task": _jsonable(t)}})
     except _TaskTimeout:
         out = _new()
         del out["_sigs"]
